@@ -53,6 +53,17 @@
       variant that stamps lastWriteTime before writing, kept so that TLC shows
       StampCoversContent has teeth (Stamp_before_write.cfg must be violated).
 
+   5. LINE ORDER.  The reader's contract is a property of the SET of lines:
+      the journal handed to Count may be the writer's chunks in any order
+      (rotated files concatenated newest first, journals of two runs merged,
+      a backward step of the wall clock), with a line repeated, or the whole
+      journal twice.  Orders = "all" makes Query also pick the order of the
+      lines (every permutation, identity plus one duplicated line in front or
+      at the end, the journal followed by itself, the reversed journal followed
+      by the journal).  OrderIndependent: the distinct-address count is the one
+      of the chronological journal; the number of included chunks is the
+      number of LINES inside the window.
+
    Don't-cares: the unit of time; what the sketch bytes look like; addresses
    still in the unwritten current sketch (they are not in the journal and no
    window counts them); write errors and partial lines (a failing Write writes nothing); the
@@ -67,6 +78,7 @@ CONSTANTS
   MaxOps,     \* scripts: maximal script length
   MaxChunks,  \* at most this many chunks are written
   Kinds,      \* layouts: how a chunk may be ended, subset of {"rot", "flush", "flush0"}
+  Orders,     \* "id": the journal is read as written | "all": also permuted, with a duplicate line, doubled
   Windows,    \* "all": every before/equal/after placement of both window ends | "chunks": chunk-identifying windows only
   MaxFaults,  \* at most this many failed journal Writes per behaviour
   MaxSyncFaults, \* at most this many failed Syncs per behaviour
@@ -116,8 +128,9 @@ VARIABLES plan, pcnt,            \* the script and the index of its next step
           fails, syncfails,      \* history: script steps whose Write / Sync failed
           failtimes,             \* history: instants of failed Writes
           win, res,              \* the query window and its result (set by Query)
+          order,                 \* the journal file handed to the reader: line i is chunks[order[i]] (set by Query)
           keyed                  \* Family = "keys": the two (key, blocks) journals
-vars == <<plan, pcnt, now, last, cur, chunks, adds, fails, syncfails, failtimes, win, res, keyed>>
+vars == <<plan, pcnt, now, last, cur, chunks, adds, fails, syncfails, failtimes, win, res, order, keyed>>
 
 Op(k, v) == [k |-> k, v |-> v]
 Alphabet == {Op("add", b) : b \in Blocks} \cup {Op("wait", d) : d \in Waits} \cup {Op("flush", 0)}
@@ -149,7 +162,7 @@ Init ==
   /\ plan \in (IF Family = "scripts" THEN Scripts ELSE IF Family = "layouts" THEN Layouts ELSE {<<>>})
   /\ pcnt = 1 /\ now = 0 /\ last = 0 /\ cur = {} /\ chunks = <<>> /\ adds = <<>>
   /\ fails = {} /\ syncfails = {} /\ failtimes = {}
-  /\ win = NoWin /\ res = [included |-> 0, count |-> 0, lo |-> 0, hi |-> 0]
+  /\ win = NoWin /\ res = [included |-> 0, count |-> 0, lo |-> 0, hi |-> 0] /\ order = <<>>
   /\ IF Family = "keys"
      THEN keyed \in {<<[key |-> ka, set |-> sa], [key |-> kb, set |-> sb]>> : ka \in {"k1"}, kb \in {"k1", "k2"}, sa \in Contents, sb \in Contents}
      ELSE keyed = <<>>
@@ -193,7 +206,7 @@ Step ==
   /\ LET op == plan[pcnt] IN
        IF op.k = "add" THEN AddIP(op.v) ELSE IF op.k = "wait" THEN Wait(op.v) ELSE Flush
   /\ pcnt' = pcnt + 1
-  /\ UNCHANGED <<plan, win, res, keyed>>
+  /\ UNCHANGED <<plan, win, res, order, keyed>>
 
 (* window ends: just before, at, and just after every chunk boundary and every failed write attempt *)
 Boundaries == {chunks[i].start : i \in DOMAIN chunks} \cup {chunks[i].end : i \in DOMAIN chunks} \cup failtimes
@@ -206,11 +219,22 @@ ChunkWindows ==
   \cup {<<f + d, chunks[j].end>> : f \in failtimes, d \in {-1, 0, 1}, j \in DOMAIN chunks}
 QueryWindows == IF chunks = <<>> THEN {<<-1, now + 1>>} ELSE IF Windows = "all" THEN AllWindows ELSE ChunkWindows
 
+(* the orders in which the lines of the journal are handed to the reader *)
+Identity == [i \in 1..Len(chunks) |-> i]
+Reverse == [i \in 1..Len(chunks) |-> Len(chunks) + 1 - i]
+Perms == {p \in [1..Len(chunks) -> 1..Len(chunks)] : \A i, j \in 1..Len(chunks) : i # j => p[i] # p[j]}
+OrderSet ==
+  IF Orders = "id" \/ chunks = <<>> THEN {Identity}
+  ELSE Perms \cup {<<d>> \o Identity : d \in DOMAIN chunks} \cup {Append(Identity, d) : d \in DOMAIN chunks}
+       \cup {Identity \o Identity, Reverse \o Identity}
+File(o) == [i \in 1..Len(o) |-> chunks[o[i]]]
+
 Query ==
   /\ Family # "keys" /\ win = NoWin /\ pcnt = Len(plan) + 1
-  /\ \E w \in QueryWindows :
+  /\ \E w \in QueryWindows, o \in OrderSet :
        /\ win' = [from |-> w[1], to |-> w[2]]
-       /\ res' = Count(chunks, w[1], w[2])
+       /\ order' = o
+       /\ res' = Count(File(o), w[1], w[2])
   /\ UNCHANGED <<plan, pcnt, now, last, cur, chunks, adds, fails, syncfails, failtimes, keyed>>
 
 Next == Step \/ Query
@@ -260,8 +284,16 @@ StampCoversContent ==
 (* the line-by-line reader computes the set-level contract *)
 ReaderIsContract ==
   win # NoWin =>
-    LET s == Scan(chunks, win.from, win.to, 1, {}, 0) IN
+    LET s == Scan(File(order), win.from, win.to, 1, {}, 0) IN
       s.included = res.included /\ s.count = res.count /\ res.lo <= res.count /\ res.count <= res.hi
+
+(* the result does not depend on the order of the lines, nor on repeated lines *)
+OrderIndependent ==
+  win # NoWin =>
+    LET chrono == Count(chunks, win.from, win.to) IN
+      /\ res.count = chrono.count /\ res.lo = chrono.lo /\ res.hi = chrono.hi
+      /\ res.included = Cardinality({i \in DOMAIN order : Inside(chunks[order[i]], win.from, win.to)})
+      /\ (order \in Perms => res = chrono)
 
 -----------------------------------------------------------------------------
 (* 3. Masking: a sketch distinguishes (key, address) pairs. *)
@@ -285,6 +317,7 @@ Emit ==
                       chunks |-> [i \in DOMAIN chunks |-> ChunkOut(chunks[i])],
                       unwritten |-> SeqOfSet(cur),
                       fails |-> SeqOfSet(fails), syncfails |-> SeqOfSet(syncfails),
+                      order |-> order,
                       from |-> win.from, to |-> win.to, expect |-> res]))
   ELSE TRUE
 =============================================================================
